@@ -1474,6 +1474,19 @@ func cmpSpecial() error {
 			if got := gogu.Compare(a, b, lt); got != want {
 				return fmt.Errorf("Compare(%v, %v, a<b) = %d, want %d", a, b, got, want)
 			}
+			// a total order that tells apart what == calls equal (-0 before +0) and ranks NaN first: Compare reflects the comparator, not ==
+			tot := func(x, y float64) bool {
+				return cmp.Compare(x, y) < 0 || (x == 0 && y == 0 && math.Signbit(x) && !math.Signbit(y))
+			}
+			want = 0
+			if tot(a, b) {
+				want = 1
+			} else if tot(b, a) {
+				want = -1
+			}
+			if got := gogu.Compare(a, b, tot); got != want {
+				return fmt.Errorf("Compare(%v, %v, total order with NaN first and -0 before +0) = %d, want %d (signbit of a: %v, of b: %v)", a, b, got, want, math.Signbit(a), math.Signbit(b))
+			}
 			a32, b32 := float32(a), float32(b)
 			if got := gogu.Less(a32, b32); got != (a32 < b32) {
 				return fmt.Errorf("Less[float32](%v, %v) = %v", a32, b32, got)
